@@ -1,4 +1,4 @@
-//@@ groups: slib sbin
+//@@ groups: slibx
 //@@ append_to: slicec/src/diagnostics/diagnostic.rs
 // Appended (to the scratch copy only, under cfg(kani)): a Diagnostics container whose vector is pre-sized.  With
 // Diagnostics::new() the first push allocates at a data-dependent moment, which leaves CBMC with a symbolic buffer
